@@ -152,6 +152,12 @@ func lwDefs() []lwDef {
 		{name: "silt-potato-sinus-0-8", soil: "silt20", gw: 99, gh: 1, gl: 8, et: 2, start: s2, days: 400, initW: 0.9, initN: 40,
 			rot:  []proj.CropEntry{{Crop: "K", Sow: "2002-04-20", Harvest: "2002-09-20", Rex: 0}, {Crop: "WW", Sow: "2002-10-10", Harvest: "2003-08-01"}},
 			fert: []proj.Fert{{Date: "2002-04-15", Amount: 100, Kind: "KAS"}}},
+		{name: "table-over-explicit-horizons-series", soil: "mixedte12", gw: 99, series: [][2]float64{{-5, 20}, {60, 9}, {150, 2}, {260, 6}, {400, 25}}, et: 3, start: s2, days: 460, initW: 0.6, initN: 30,
+			rot:  []proj.CropEntry{{Crop: "SW", Sow: "2002-03-25", Harvest: "2002-08-20", Rex: 50}, {Crop: "WW", Sow: "2002-10-01", Harvest: "2003-08-05"}},
+			fert: []proj.Fert{{Date: "2002-04-10", Amount: 70, Kind: "KAS"}}},
+		{name: "explicit-over-table-horizons-sinus", soil: "mixedet12", gw: 99, gh: 2, gl: 11, et: 3, start: s2, days: 460, initW: 0.6, initN: 30,
+			rot:  []proj.CropEntry{{Crop: "SM", Sow: "2002-04-25", Harvest: "2002-10-10", Rex: 0}, {Crop: "WW", Sow: "2002-10-20", Harvest: "2003-08-05"}},
+			fert: []proj.Fert{{Date: "2002-05-20", Amount: 100, Kind: "KAS"}}},
 		{name: "loam-constant-series-12", soil: "silt20", gw: 99, series: [][2]float64{{-5, 12}, {100, 12}, {333, 12}, {500, 12}}, constSeries: true, et: 3, start: s2, days: 520, initW: 0.7, initN: 30,
 			rot:  []proj.CropEntry{{Crop: "SW", Sow: "2002-03-25", Harvest: "2002-08-20", Rex: 50}, {Crop: "WW", Sow: "2002-10-01", Harvest: "2003-08-05"}},
 			fert: []proj.Fert{{Date: "2002-04-10", Amount: 70, Kind: "KAS"}, {Date: "2003-03-10", Amount: 90, Kind: "KAS"}}},
